@@ -5,6 +5,7 @@ import (
 	"encoding/json"
 	"flag"
 	"fmt"
+	"git.sr.ht/~rockorager/vaxis/simrt"
 	"os"
 	"runtime"
 	"runtime/pprof"
@@ -32,7 +33,7 @@ var (
 	fShrink = flag.String("sim.shrink", "", "replay file to minimise")
 	fShrOut = flag.String("sim.shrinkout", "", "where to write the minimised replay file")
 	fShrBud = flag.Duration("sim.shrinkbudget", 20*time.Second, "minimisation budget")
-	fWall   = flag.Duration("sim.runwall", 20*time.Second, "wall-clock limit for one run (CPU loop watchdog)")
+	fWall   = flag.Duration("sim.runwall", 20*time.Second, "wall-clock time without a single scheduler step after which a run counts as a CPU loop (watchdog)")
 )
 
 // HangRecord is written next to the output when the watchdog fires.
@@ -56,13 +57,21 @@ func startWatchdog(out string) {
 		begin := time.Now()
 		wallNow = func() time.Time { return begin.Add(time.Duration(nanotime() - nano0)) }
 		go func() {
+			lastProgress := int64(-1)
+			var lastRun *CurrentRun
+			lastChange := wallNow()
 			for {
 				time.Sleep(250 * time.Millisecond)
 				cur := Current.Load()
 				if cur == nil || cur.Start.IsZero() {
 					continue
 				}
-				el := wallNow().Sub(cur.Start)
+				// progress = a scheduler step was taken or another run began
+				if pr := simrt.Progress.Load(); pr != lastProgress || cur != lastRun {
+					lastProgress, lastRun, lastChange = pr, cur, wallNow()
+					continue
+				}
+				el := wallNow().Sub(lastChange)
 				if el < *fWall {
 					continue
 				}
